@@ -125,6 +125,11 @@ func TestExpiryBounds(t *testing.T) {
 
 					synctest.Test(t, func(t *testing.T) {
 						ctx := context.Background()
+						if ctxTTL == 0 && s%3 == 0 {
+							// "no context TTL" expressed as the default on top of an outer context that carries one
+							ctx = cache.WithTTL(cache.WithTTL(ctx, 7*time.Hour, false), cache.DefaultTTL, false)
+						}
+
 						if ctxTTL != 0 {
 							ctx = cache.WithTTL(ctx, ctxTTL, false)
 
